@@ -1,4 +1,4 @@
-import DoltVerif.Lemmas.ProllyMergeRange
+import DoltVerif.Lemmas.ProllyMergeR2
 import DoltVerif.Props.C13
 /-!
 C14 — Three-way tree merges follow key-wise merge semantics.
@@ -408,6 +408,318 @@ theorem range_patch_lookup {cmp : Bytes → Bytes → Ordering} (ol : OrdLaws cm
   have := lookup_replaceRange ol sl p.keyBelowStart p.endKey hlohi hins k
   rw [hto] at this ⊢
   exact this
+
+/-! ### the range-patch part: R3 proved, R2's interval tests proved, R1 and the rest of R2 as named hypotheses -/
+
+/-- the mapping of a key after applying a tiled patch stream to `l`: what the covering patch says,
+or `l`'s own mapping when no patch covers the key -/
+def patchedValue (cmp : Bytes → Bytes → Ordering) (ps : List Patch) (l : List KV) (k : Bytes) : Option KV :=
+  match ps.find? (fun p => p.covers cmp k) with
+  | some p => p.valAt cmp k
+  | none => lookupKV cmp k l
+
+/-- **R3 — apply_tiled_stream** (proved): `ApplyPatches` over any *tiled* stream of point and range
+patches (`Tiles`: every patch well-formed — a range patch carries strictly ascending pairs inside
+`(keyBelowStart, endKey]` —, each patch starts after the previous one ends) applied to a strictly
+ascending content yields a strictly ascending content whose every key has `patchedValue`. -/
+theorem apply_tiled_stream {cmp : Bytes → Bytes → Ordering} (ol : OrdLaws cmp) (ps : List Patch) (l : List KV)
+    (sl : Sorted cmp l) (ht : Tiles cmp ps) :
+    Sorted cmp (applyPatches cmp l ps) ∧ ∀ k, lookupKV cmp k (applyPatches cmp l ps) = patchedValue cmp ps l k :=
+  apply_tiled ol ps l sl ht
+
+/-- what R1 ∧ R2 have to deliver about the stream `SendPatches` emits: it tiles, applied to left it
+gives the key-wise merge at every key, and the collisions are the specification's, in key order -/
+structure StreamDenotesMerge (cmp : Bytes → Bytes → Ordering) (collide : Collide) (B L R : List KV)
+    (ps : List Patch) (cs : List Collision) : Prop where
+  tiles : Tiles cmp ps
+  value : ∀ k, patchedValue cmp ps L k = (mergeKey collide (lookupKV cmp k B) (lookupKV cmp k L) (lookupKV cmp k R)).1
+  coll : ∀ c, c ∈ cs ↔ ∃ k, (mergeKey collide (lookupKV cmp k B) (lookupKV cmp k L) (lookupKV cmp k R)).2 = some c
+  collAsc : cs.Pairwise (fun c1 c2 => cmp c1.left.key c2.left.key = .lt)
+
+/-- **patch_merge_refines_of_stream** (R3 as consumer): a stream that denotes the merge, applied by
+`ApplyPatches`, gives exactly the key-wise merge. -/
+theorem patch_merge_refines_of_stream {cmp : Bytes → Bytes → Ordering} (ol : OrdLaws cmp) (collide : Collide) (B L R : List KV)
+    (sl : Sorted cmp L) (ps : List Patch) (cs : List Collision) (h : StreamDenotesMerge cmp collide B L R ps cs) :
+    Sorted cmp (applyPatches cmp L ps) ∧
+    (∀ k, lookupKV cmp k (applyPatches cmp L ps) = (mergeKey collide (lookupKV cmp k B) (lookupKV cmp k L) (lookupKV cmp k R)).1) ∧
+    (∀ c, c ∈ cs ↔ ∃ k, (mergeKey collide (lookupKV cmp k B) (lookupKV cmp k L) (lookupKV cmp k R)).2 = some c) ∧
+    cs.Pairwise (fun c1 c2 => cmp c1.left.key c2.left.key = .lt) := by
+  obtain ⟨s1, s2⟩ := apply_tiled_stream ol ps L sl h.tiles
+  exact ⟨s1, fun k => by rw [s2 k, h.value k], h.coll, h.collAsc⟩
+
+/-- keys strictly before the interval of a patch -/
+def startsAfter (cmp : Bytes → Bytes → Ordering) (p : Patch) (k : Bytes) : Prop :=
+  if p.level = 0 then cmp k p.endKey = .lt else ∃ a, p.keyBelowStart = some a ∧ cmp k a ≠ .gt
+
+/-- where a generator stands: nothing produced yet, just produced a patch, or exhausted -/
+inductive GenPos where
+  | start
+  | at (p : Patch) (t : DiffType)
+  | done
+
+def GenPos.ofResult : Option (Patch × DiffType) → GenPos
+  | some (p, t) => .at p t
+  | none => .done
+
+/-- Content-level soundness of a `PatchGenerator` for the change `B → X`, as an invariant `Inv d pos`
+over (generator state, position) that is closed under `Next` and `split`:
+* the current patch is well formed, says what `X` maps the keys of its interval to, and — for a point
+  patch — is the genuine change of its key;
+* `Next` (from `start` or from a patch) produces a patch lying after the current one, and no key in
+  between is changed from `B` to `X` (no change is lost; when nothing follows, nothing after the
+  current patch is changed);
+* `split` of a range patch produces a patch that does not start before the split one, and no key from
+  the start of the split interval up to the new patch (or to the end of the map, when nothing follows —
+  "split … could even return EOF") is changed. -/
+structure GenSound (cmp : Bytes → Bytes → Ordering) (fuel : Nat) (B X : List KV)
+    (Inv : PG → GenPos → Prop) : Prop where
+  cur : ∀ d p t, Inv d (.at p t) → PatchOK cmp p ∧
+    (∀ k, p.covers cmp k = true → lookupKV cmp k X = p.valAt cmp k) ∧
+    (p.level = 0 → changeOf (lookupKV cmp p.endKey B) (lookupKV cmp p.endKey X) =
+      some ⟨t, p.endKey, pvalBytes p.from?, pvalBytes p.to?⟩)
+  next : ∀ d pos d' c', Inv d pos → pos ≠ .done → pgNext cmp fuel d = .ok (d', c') → Inv d' (GenPos.ofResult c') ∧
+    (∀ p t p' t', pos = .at p t → c' = some (p', t') → Patch.before cmp p p') ∧
+    (∀ k, (∀ p t, pos = .at p t → cmp p.endKey k = .lt) → (∀ p' t', c' = some (p', t') → startsAfter cmp p' k) →
+      changeOf (lookupKV cmp k B) (lookupKV cmp k X) = none)
+  split : ∀ d p t d' c', Inv d (.at p t) → p.level ≠ 0 → pgSplit cmp fuel d = .ok (d', c') →
+    Inv d' (GenPos.ofResult c') ∧
+    (∀ p' t', c' = some (p', t') → ∀ k, startsAfter cmp p k → startsAfter cmp p' k) ∧
+    (∀ k, ¬ startsAfter cmp p k → (∀ p' t', c' = some (p', t') → startsAfter cmp p' k) →
+      changeOf (lookupKV cmp k B) (lookupKV cmp k X) = none)
+
+/-- in a strictly ascending event list, a key strictly between an element and its successor (or beyond the
+last, or before the first) is the key of no element -/
+theorem no_event_between {cmp : Bytes → Bytes → Ordering} (ol : OrdLaws cmp) {pre rest : List Event} {k : Bytes}
+    (ha : AscE cmp (pre ++ rest)) (hpre : ∀ e ∈ pre, cmp e.key k = .lt) (hrest : ∀ e ∈ rest.head?, cmp k e.key = .lt) :
+    ∀ ev ∈ pre ++ rest, cmp k ev.key ≠ .eq := by
+  intro ev hev he
+  rcases List.mem_append.mp hev with h | h
+  · have := hpre ev h; rw [ol.eq_symm he] at this; simp at this
+  · cases rest with
+    | nil => simp at h
+    | cons r rs =>
+      have hr : cmp k r.key = .lt := hrest r (by simp)
+      simp at h
+      rcases h with rfl | h
+      · rw [hr] at he; simp at he
+      · have hasc := (List.pairwise_append.mp ha).2.1
+        have := ol.lt_trans _ _ _ hr ((List.pairwise_cons.mp hasc).1 ev h)
+        rw [this] at he; simp at he
+
+/-- **R1 for the leaf-patch-only generator, through the `GenSound` interface** (proved): for sorted
+single-leaf `base`, `x` the generator built by `PatchGeneratorFromRoots` has a sound invariant — so the
+interface is satisfiable and R1 is settled wherever only point patches occur. -/
+theorem R1_leaf {cmp : Bytes → Bytes → Ordering} (ol : OrdLaws cmp) (fuel : Nat) (kb kx : List KV)
+    (sb : Sorted cmp kb) (sx : Sorted cmp kx) (d : PG) (hd : pgFromRoots (.leaf kb) (.leaf kx) = .ok d) :
+    ∃ Inv, GenSound cmp fuel kb kx Inv ∧ Inv d .start := by
+  have hmem := specDiffP_mem ol kb kx sb sx
+  have hasc : AscE cmp (specDiffP cmp kb kx) := specDiffP_ascending ol kb kx sb sx
+  let Inv : PG → GenPos → Prop := fun d pos =>
+    match pos with
+    | .start => LeafStr cmp d (specDiffP cmp kb kx)
+    | .at p t => ∃ pre e rest, specDiffP cmp kb kx = pre ++ e :: rest ∧ (p, t) = patchOf e ∧ LeafStr cmp d rest
+    | .done => True
+  refine ⟨Inv, ⟨?_, ?_, ?_⟩, pgFromRoots_leaf kb kx d hd⟩
+  · -- cur
+    rintro d p t ⟨pre, e, rest, hs, hpt, _⟩
+    have hp : p = pointPatch e := congrArg Prod.fst hpt
+    have ht : t = e.type := congrArg Prod.snd hpt
+    have hlev : p.level = 0 := by rw [hp]; rfl
+    have he : DiffSpecP cmp kb kx e := (hmem e).mp (by rw [hs]; simp)
+    refine ⟨⟨fun h => absurd hlev h, fun h => absurd hlev h, fun h => absurd hlev h⟩, ?_, ?_⟩
+    · intro k hk
+      have hk' : cmp k e.key = .eq := by
+        have := (covers_iff_point hlev k).mp hk; rw [hp] at this; exact this
+      have hc := (diffSpecP_at_key ol sb sx k e).mp ⟨he, hk'⟩
+      simp only [Patch.valAt, hlev, beq_self_eq_true, if_true]
+      rw [hp, pointEffect_pointPatch, changeOf_to hc]
+    · intro _
+      have hc := (diffSpecP_at_key ol sb sx e.key e).mp ⟨he, ol.refl _⟩
+      rw [hp, ht]
+      simp only [pointPatch, patchOf, pvalBytes_map]
+      exact hc
+  · -- next
+    intro d pos d' c' hinv hnd hn
+    cases pos with
+    | done => exact absurd rfl hnd
+    | start =>
+      have hs : LeafStr cmp d (specDiffP cmp kb kx) := hinv
+      rcases pgNext_leaf ol.refl fuel d d' _ c' hs hn with ⟨hnil, rfl⟩ | ⟨e, rest, hcons, rfl, hs'⟩
+      · refine ⟨trivial, (by intro p t p' t' h; cases h), ?_⟩
+        intro k _ _
+        apply (diffSpecP_none_at_key ol sb sx k).mp
+        intro ev hev
+        have := (hmem ev).mpr hev
+        rw [hnil] at this; simp at this
+      · refine ⟨⟨[], e, rest, by simpa using hcons, rfl, hs'⟩, (by intro p t p' t' h; cases h), ?_⟩
+        intro k _ h2
+        have hk : cmp k e.key = .lt := by
+          have := h2 (patchOf e).1 (patchOf e).2 rfl
+          simpa [startsAfter, patchOf] using this
+        apply (diffSpecP_none_at_key ol sb sx k).mp
+        intro ev hev
+        have hin := (hmem ev).mpr hev
+        rw [hcons] at hin hasc
+        exact no_event_between ol (pre := []) (rest := e :: rest) (by simpa using hasc) (by simp) (by simpa using hk) ev (by simpa using hin)
+    | «at» p t =>
+      obtain ⟨pre, e, rest, hs, hpt, hstr⟩ := hinv
+      have hp : p = pointPatch e := congrArg Prod.fst hpt
+      have hasc' : AscE cmp ((pre ++ [e]) ++ rest) := by rw [hs] at hasc; simpa using hasc
+      have hpre : ∀ k, cmp e.key k = .lt → ∀ ev ∈ pre ++ [e], cmp ev.key k = .lt := by
+        intro k hk ev hev
+        simp at hev
+        rcases hev with hev | rfl
+        · have h1 : AscE cmp (pre ++ e :: rest) := by rw [← hs]; exact hasc
+          have := (List.pairwise_append.mp h1).2.2 ev hev e (by simp)
+          exact ol.lt_trans _ _ _ this hk
+        · exact hk
+      rcases pgNext_leaf ol.refl fuel d d' rest c' hstr hn with ⟨hnil, rfl⟩ | ⟨e', rest', hcons, rfl, hs'⟩
+      · refine ⟨trivial, (by intro p0 t0 p' t' _ h; cases h), ?_⟩
+        intro k h1 _
+        have hk : cmp e.key k = .lt := by have := h1 p t rfl; rw [hp] at this; exact this
+        apply (diffSpecP_none_at_key ol sb sx k).mp
+        intro ev hev
+        have hin := (hmem ev).mpr hev
+        rw [hs, hnil] at hin
+        have hasc2 : AscE cmp ((pre ++ [e]) ++ []) := by rw [hnil] at hasc'; exact hasc'
+        exact no_event_between ol (pre := pre ++ [e]) (rest := []) hasc2 (hpre k hk) (by simp) ev (by simpa using hin)
+      · refine ⟨⟨pre ++ [e], e', rest', by rw [hs, hcons]; simp, rfl, hs'⟩, ?_, ?_⟩
+        · intro p0 t0 p' t' h0 h'
+          cases h0; cases h'
+          rw [hp]
+          simp only [Patch.before, patchOf, pointPatch, if_true]
+          have h1 : AscE cmp (pre ++ e :: e' :: rest') := by rw [← hcons, ← hs]; exact hasc
+          have := (List.pairwise_append.mp h1).2.1
+          exact (List.pairwise_cons.mp this).1 e' (by simp)
+        · intro k h1 h2
+          have hk : cmp e.key k = .lt := by have := h1 p t rfl; rw [hp] at this; exact this
+          have hk2 : cmp k e'.key = .lt := by
+            have := h2 (patchOf e').1 (patchOf e').2 rfl
+            simpa [startsAfter, patchOf] using this
+          apply (diffSpecP_none_at_key ol sb sx k).mp
+          intro ev hev
+          have hin := (hmem ev).mpr hev
+          rw [hs, hcons] at hin
+          have hasc2 : AscE cmp ((pre ++ [e]) ++ e' :: rest') := by rw [hcons] at hasc'; exact hasc'
+          exact no_event_between ol (pre := pre ++ [e]) (rest := e' :: rest') hasc2 (hpre k hk) (by simpa using hk2) ev (by simpa using hin)
+  · -- split: a point patch is never split
+    rintro d p t d' c' ⟨pre, e, rest, _, hpt, _⟩ hlv _
+    have hp : p = pointPatch e := congrArg Prod.fst hpt
+    exact absurd (by rw [hp]; rfl) hlv
+
+/-- **R2 ∧ R1 instantiated for the leaf-patch-only generator** (proved): for sorted single-leaf trees the
+stream `SendPatches` emits `StreamDenotesMerge` — the target of R1 ∧ R2 is met, with the definitions used
+above, wherever only point patches occur. -/
+theorem stream_denotes_merge_leaf {cmp : Bytes → Bytes → Ordering} (ol : OrdLaws cmp) (collide : Collide) (kb kl kr : List KV)
+    (sb : Sorted cmp kb) (sl : Sorted cmp kl) (sr : Sorted cmp kr)
+    (content : List KV) (ps : List Patch) (cs : List Collision)
+    (h : threeWayMerge cmp collide (.leaf kb) (.leaf kl) (.leaf kr) = .ok (content, ps, cs)) :
+    StreamDenotesMerge cmp collide kb kl kr ps cs := by
+  obtain ⟨hps, _⟩ := threeWayMerge_leaf ol.refl collide kb kl kr content ps cs h
+  have e1 : ps = (sendSpec cmp collide (specDiffP cmp kb kl) (specDiffP cmp kb kr)).1 := congrArg Prod.fst hps
+  have e2 : cs = (sendSpec cmp collide (specDiffP cmp kb kl) (specDiffP cmp kb kr)).2 := congrArg Prod.snd hps
+  obtain ⟨pa, pl⟩ := leaf_patches_asc ol collide sb sl sr
+  obtain ⟨cm, ca⟩ := leaf_merge_collisions ol collide sb sl sr
+  have ht : Tiles cmp ps := by
+    rw [e1]
+    refine ⟨fun p hp => ⟨fun h => absurd (pl p hp) h, fun h => absurd (pl p hp) h, fun h => absurd (pl p hp) h⟩, ?_⟩
+    have hall : ∀ p ∈ (sendSpec cmp collide (specDiffP cmp kb kl) (specDiffP cmp kb kr)).1, p.level = 0 := pl
+    revert pa hall
+    generalize (sendSpec cmp collide (specDiffP cmp kb kl) (specDiffP cmp kb kr)).1 = qs
+    intro pa hall
+    induction qs with
+    | nil => exact List.Pairwise.nil
+    | cons q qs ih =>
+      have hp := List.pairwise_cons.mp pa
+      refine List.pairwise_cons.mpr ⟨?_, ih hp.2 (fun x hx => hall x (by simp [hx]))⟩
+      intro x hx
+      simp only [Patch.before, hall x (by simp [hx]), if_true]
+      exact hp.1 x hx
+  refine ⟨ht, ?_, by rw [e2]; exact cm, by rw [e2]; exact ca⟩
+  intro k
+  have h1 := (apply_tiled_stream ol ps kl sl ht).2 k
+  rw [← h1, e1]
+  exact leaf_merge_lookup ol collide sb sl sr k
+
+/-- **R1 (named hypothesis)**: the generator `PatchGeneratorFromRoots base x` is sound across level
+changes — there is an invariant, holding initially, that is `GenSound`.  Proved only for single-leaf
+trees (`pgNext_leaf`, invariant `LeafStr`); in general it needs C13's cursor invariants for cursor
+pairs at different levels, the `previousKey` bookkeeping of `skipCommonVisitingParents`, and the
+alignment loops of `split` / `advanceFromPreviousPatch`. -/
+def R1_GeneratorSound (cmp : Bytes → Bytes → Ordering) : Prop :=
+  ∀ (store : Addr → Option Tree) (fuel : Nat) (base x : Tree) (d : PG),
+    base.WF store → x.WF store → base.KeysOK → x.KeysOK → Sorted cmp base.flatten → Sorted cmp x.flatten →
+    pgFromRoots base x = .ok d →
+    ∃ Inv, GenSound cmp fuel base.flatten x.flatten Inv ∧ Inv d .start
+
+/-- **R2 (named hypothesis)**: over two sound generators, `SendPatches` (all four level combinations,
+the same-address shortcut, split-first / split-both, `getNextAndSplitIfAtEnd`) emits a stream that
+denotes the key-wise merge.  Proved here: the interval tests of its range branches
+(`sendPatches_interval_tests`) and the whole loop for point-only streams (`sendPatches_leaf`); open:
+preservation of "the output so far is the merge below the frontier" through the range branches. -/
+def R2_SendPatchesSound (cmp : Bytes → Bytes → Ordering) (collide : Collide) : Prop :=
+  ∀ (fuel : Nat) (B L R : List KV) (ld rd : PG) (InvL InvR : PG → GenPos → Prop)
+    (ps : List Patch) (cs : List Collision),
+    Sorted cmp B → Sorted cmp L → Sorted cmp R →
+    GenSound cmp fuel B L InvL → GenSound cmp fuel B R InvR → InvL ld .start → InvR rd .start →
+    sendPatches cmp collide fuel ld rd = .ok (ps, cs) →
+    StreamDenotesMerge cmp collide B L R ps cs
+
+/-- **sendPatches_interval_tests** (the proved part of R2): the comparisons the range branches of
+`SendPatches` make decide interval overlap correctly — `left.EndKey ≤ right.KeyBelowStart` (nil as
+minimum) ⇒ no key of left's interval lies in right's; a point key `x` against a range patch:
+`x ≤ KeyBelowStart` ⇒ outside, `x > EndKey` ⇒ outside, otherwise inside (so the range must be split);
+equal `To` addresses ⇒ equal pairs (content addressing). -/
+theorem sendPatches_interval_tests {cmp : Bytes → Bytes → Ordering} (ol : OrdLaws cmp) :
+    (∀ (l r : Patch), r.level ≠ 0 → ordLE (cmpNilMin cmp (some l.endKey) r.keyBelowStart) = true →
+      ∀ k, l.covers cmp k = true → r.covers cmp k = false) ∧
+    (∀ (x : Bytes) (r : Patch), r.level ≠ 0 →
+      (ordLE (cmpNilMin cmp (some x) r.keyBelowStart) = true → r.covers cmp x = false) ∧
+      (cmp x r.endKey = .gt → r.covers cmp x = false) ∧
+      (ordLE (cmpNilMin cmp (some x) r.keyBelowStart) = false → cmp x r.endKey ≠ .gt → r.covers cmp x = true)) ∧
+    (∀ (store : Addr → Option Tree) (a b : Addr) (ta tb : Tree), store a = some ta → store b = some tb →
+      (PVal.sub a ta).beq (PVal.sub b tb) = true → ta.flatten = tb.flatten) :=
+  ⟨fun l r hr h k hl => disjoint_of_end_le_start ol hr h hl,
+   fun x r hr => point_range_decision ol x hr,
+   fun store a b ta tb ha hb h => same_address_same_pairs ha hb h⟩
+
+/-- **patch_merge_refines_of_R1_R2**: `patch_merge_refines` (content = key-wise merge at every key,
+collisions = the specification's in key order) for ALL well-formed trees follows from R1 ∧ R2 — R3
+(`apply_tiled_stream`) is proved. -/
+theorem patch_merge_refines_of_R1_R2 {cmp : Bytes → Bytes → Ordering} (ol : OrdLaws cmp) (collide : Collide)
+    (r1 : R1_GeneratorSound cmp) (r2 : R2_SendPatchesSound cmp collide)
+    (store : Addr → Option Tree) (base left right : Tree)
+    (hb : base.WF store) (hl : left.WF store) (hr : right.WF store)
+    (kb : base.KeysOK) (kl : left.KeysOK) (kr : right.KeysOK)
+    (sb : Sorted cmp base.flatten) (sl : Sorted cmp left.flatten) (sr : Sorted cmp right.flatten)
+    (content : List KV) (ps : List Patch) (cs : List Collision)
+    (h : threeWayMerge cmp collide base left right = .ok (content, ps, cs)) :
+    Sorted cmp content ∧
+    (∀ k, lookupKV cmp k content =
+      (mergeKey collide (lookupKV cmp k base.flatten) (lookupKV cmp k left.flatten) (lookupKV cmp k right.flatten)).1) ∧
+    (∀ c, c ∈ cs ↔ ∃ k, (mergeKey collide (lookupKV cmp k base.flatten) (lookupKV cmp k left.flatten)
+      (lookupKV cmp k right.flatten)).2 = some c) ∧
+    cs.Pairwise (fun c1 c2 => cmp c1.left.key c2.left.key = .lt) := by
+  unfold threeWayMerge at h
+  simp only [bind, Except.bind] at h
+  cases h1 : pgFromRoots base left with
+  | error e => simp [h1] at h
+  | ok ld =>
+    cases h2 : pgFromRoots base right with
+    | error e => simp [h1, h2] at h
+    | ok rd =>
+      simp only [h1, h2] at h
+      cases h3 : sendPatches cmp collide (mergeFuel base left right) ld rd with
+      | error e => simp [h3] at h
+      | ok res =>
+        obtain ⟨ps', cs'⟩ := res
+        simp [h3, pure, Except.pure] at h
+        obtain ⟨rfl, rfl, rfl⟩ := h
+        obtain ⟨InvL, gl, il⟩ := r1 store (mergeFuel base left right) base left ld hb hl kb kl sb sl h1
+        obtain ⟨InvR, gr, ir⟩ := r1 store (mergeFuel base left right) base right rd hb hr kb kr sb sr h2
+        have sd := r2 (mergeFuel base left right) base.flatten left.flatten right.flatten ld rd InvL InvR ps' cs'
+          sb sl sr gl gr il ir h3
+        exact patch_merge_refines_of_stream ol collide _ _ _ sl ps' cs' sd
 
 /-! ### statements that are compared by the harness, not proved -/
 
